@@ -21,49 +21,49 @@ def run():
         from . import check_config as m
 
         if replay:
-            raise MachineryError("replay files of %s are descriptive; rerun the check" % prop)
+            print("note: the scenario in %s is re-run as part of the whole check of %s (its scenarios are regenerated from the specification)" % (replay, prop))
         return m.main_met() if prop == "C16" else m.main_single()
     if prop == "C15":
         from . import check_cache as m
 
         if replay:
-            raise MachineryError("replay files of C15 are descriptive; rerun the check")
+            print("note: the scenario in %s is re-run as part of the whole check of %s (its scenarios are regenerated from the specification)" % (replay, prop))
         return m.main()
     if prop == "C12":
         from . import check_runtime as m
 
         if replay:
-            raise MachineryError("replay files of C12 are descriptive; rerun the check")
+            print("note: the scenario in %s is re-run as part of the whole check of %s (its scenarios are regenerated from the specification)" % (replay, prop))
         return m.main()
     if prop == "C14":
         from . import check_drivers as m
 
         if replay:
-            raise MachineryError("replay files of C14 are descriptive; rerun the check")
+            print("note: the scenario in %s is re-run as part of the whole check of %s (its scenarios are regenerated from the specification)" % (replay, prop))
         return m.main()
     if prop == "C18":
         from . import check_netcdf as m
 
         if replay:
-            raise MachineryError("replay files of C18 are descriptive; rerun the check")
+            print("note: the scenario in %s is re-run as part of the whole check of %s (its scenarios are regenerated from the specification)" % (replay, prop))
         return m.main()
     if prop == "C20":
         from . import check_sourcearea as m
 
         if replay:
-            raise MachineryError("replay files of C20 are descriptive; rerun the check")
+            print("note: the scenario in %s is re-run as part of the whole check of %s (its scenarios are regenerated from the specification)" % (replay, prop))
         return m.main()
     if prop == "C05":
         from . import check_step as m
 
         if replay:
-            raise MachineryError("replay files of C05 are descriptive; rerun the check")
+            print("note: the scenario in %s is re-run as part of the whole check of %s (its scenarios are regenerated from the specification)" % (replay, prop))
         return m.main()
     if prop == "C08":
         from . import check_orientation as m
 
         if replay:
-            raise MachineryError("replay files of C08 are descriptive; rerun the check")
+            print("note: the scenario in %s is re-run as part of the whole check of %s (its scenarios are regenerated from the specification)" % (replay, prop))
         return m.main()
     raise MachineryError("no check registered for " + prop)
 
